@@ -48,6 +48,10 @@ def specCheck (prop : String) (op res : List String) : String :=
     -- every leaf function reachable with attacker-controlled text (header values, paths): never a panic
     if ["pct_dec", "pct_enc", "grpc_extract", "connect_extract", "grpc_enc", "connect_enc", "path_unescape", "path_escape", "tmpl_parse", "env_dec", "env_enc", "grpc_dec", "parse_int64", "format_int", "route"].contains op then
       verdict (res != ["panic"]) "panic in a function that processes client- or backend-controlled text"
+    else if ["rest_in", "rest_http", "rest_out", "rest_rt", "schema_req", "schema_rest_grpc", "config", "config_err"].contains op then
+      -- whole requests (and configurations) with hostile paths, query keys and bodies: never a panic
+      let r := " ".intercalate res
+      verdict ((r.splitOn "panic").length == 1 && (r.splitOn "PANIC").length == 1) "panic while serving a REST request or building a configuration"
     else match op, args with
       | "e2e", [h] => specE2E "C11" h res
       | "e2e_fresh", [h] => specE2E "C11" h res
